@@ -688,3 +688,181 @@ def enc_schema(d):
                    " ".join(f"A {hx(an)} {1 if opt else 0} {enc_type(ty)} " + (f"1 {enc_expr(init)}" if init is not None else "0")
                             for an, opt, ty, init in attrs) + " " + wh(ws))
     return " ".join(" ".join(out).split())
+
+
+# ------------------------------------------------------------------ extended schemas (no Lean model: oracle only)
+DECL_END = {"TYPE": "END_TYPE", "ENTITY": "END_ENTITY", "FUNCTION": "END_FUNCTION", "PROCEDURE": "END_PROCEDURE",
+            "RULE": "END_RULE", "CONSTANT": "END_CONSTANT"}
+
+
+def split_decls(toks):
+    """generic splitter: {(kind, name): tokens of the declaration}; kind CONSTANT has name ''"""
+    i = 0
+    if toks[:1] != [("skw", "SCHEMA")]:
+        raise DeclError("SCHEMA expected")
+    name = toks[1]
+    i = 3
+    out = {("SCHEMA", ""): [name]}
+    while i < len(toks):
+        t = toks[i]
+        if t == ("skw", "END_SCHEMA"):
+            return out
+        if t[0] != "skw" or t[1] not in DECL_END:
+            raise DeclError(f"declaration keyword expected, got {t} at {i}")
+        end = ("skw", DECL_END[t[1]])
+        j = i + 1
+        while j < len(toks) and toks[j] != end:
+            j += 1
+        if j >= len(toks):
+            raise DeclError(f"{end} missing")
+        nm = "" if t[1] == "CONSTANT" else (toks[i + 1][1] if toks[i + 1][0] == "id" else str(toks[i + 1]))
+        key = (t[1], nm.lower())
+        if key in out:
+            raise DeclError(f"duplicate declaration {key}")
+        out[key] = toks[i:j + 2]
+        i = j + 2
+    raise DeclError("END_SCHEMA missing")
+
+
+def assign_segments(toks):
+    """expression token lists after `:=` up to the next `;`/TO at bracket depth 0, in order"""
+    segs, i = [], 0
+    while i < len(toks):
+        if toks[i] == ("sym", ":="):
+            j, depth = i + 1, 0
+            while j < len(toks):
+                t = toks[j]
+                if depth == 0 and (t == ("sym", ";") or t == ("skw", "TO")):
+                    break
+                if t in (("sym", "("), ("sym", "[")): depth += 1
+                elif t in (("sym", ")"), ("sym", "]")): depth -= 1
+                j += 1
+            segs.append(toks[i + 1:j]); i = j
+        else:
+            i += 1
+    return segs
+
+
+def no_parens(toks):
+    return [t for t in merge_strings([x for x in toks if x not in (("sym", "("), ("sym", ")"))])]
+
+
+class GenExt(Gen):
+    """schemas with SUPERTYPE/SUBTYPE, UNIQUE, INVERSE, enumeration/select types, functions, procedures, rules"""
+
+    def supertype_expr(self, subs):
+        r = self.rng
+        if len(subs) == 1:
+            return subs[0]
+        k = r.random()
+        if k < 0.4:
+            self.hit("supertype:oneof")
+            n = r.randint(2, len(subs))
+            rest = subs[n:]
+            e = "ONEOF (" + ", ".join(subs[:n]) + ")"
+            if rest:
+                op = r.choice(["AND", "ANDOR"]); self.hit("supertype:" + op.lower())
+                return e + f" {op} " + self.supertype_expr(rest)
+            return e
+        op = r.choice(["AND", "ANDOR"]); self.hit("supertype:" + op.lower())
+        cut = r.randint(1, len(subs) - 1)
+        a, b = self.supertype_expr(subs[:cut]), self.supertype_expr(subs[cut:])
+        if r.random() < 0.5: a = "(" + a + ")"
+        if r.random() < 0.5: b = "(" + b + ")"
+        return f"{a} {op} {b}"
+
+    def stmts(self, ints, lists, depth, in_repeat=False, procs=()):
+        r = self.rng
+        out = []
+        ex = lambda d=2: src_text(render(keep_split_safe(self.expr(ints, d, lists)) if self.split_safe else self.expr(ints, d, lists), r))
+        for _ in range(r.randint(1, 3)):
+            k = r.random()
+            if k < 0.4 or depth <= 0:
+                self.hit("stmt:assignment"); out.append(f"{r.choice(ints)} := {ex()};")
+            elif k < 0.55:
+                self.hit("stmt:if")
+                s = [f"IF {ex()} THEN"] + self.stmts(ints, lists, depth - 1, in_repeat, procs)
+                if r.random() < 0.5:
+                    s += ["ELSE"] + self.stmts(ints, lists, depth - 1, in_repeat, procs)
+                out += s + ["END_IF;"]
+            elif k < 0.7:
+                self.hit("stmt:repeat")
+                v = self.name("j", 2)
+                ctl = ""
+                if r.random() < 0.7:
+                    # the parser supplies `BY 1` when no increment is given (like interval desugaring): always written here
+                    ctl += f" {v} := {ex(1)} TO {ex(1)} BY {ex(1)}"
+                if r.random() < 0.4: ctl += f" WHILE {ex(1)}"
+                if r.random() < 0.4: ctl += f" UNTIL {ex(1)}"
+                body = self.stmts(ints, lists, depth - 1, True, procs)
+                if r.random() < 0.3:
+                    body.append(r.choice(["ESCAPE;", "SKIP;"])); self.hit("stmt:escape/skip")
+                out += [f"REPEAT{ctl};"] + body + ["END_REPEAT;"]
+            elif k < 0.8:
+                self.hit("stmt:case")
+                s = [f"CASE {r.choice(ints)} OF"]
+                for lab in r.sample([1, 2, 3, 5, 8], r.randint(1, 3)):
+                    s.append(f"{lab} : {r.choice(ints)} := {ex(1)};")
+                if r.random() < 0.5:
+                    s.append(f"OTHERWISE : {r.choice(ints)} := {ex(1)};")
+                out += s + ["END_CASE;"]
+            elif k < 0.88:
+                self.hit("stmt:compound"); out += ["BEGIN"] + self.stmts(ints, lists, depth - 1, in_repeat, procs) + ["END;"]
+            elif k < 0.94 and procs:
+                self.hit("stmt:procedure-call"); out.append(f"{r.choice(procs)}({r.choice(ints)}, {ex(1)});")
+            else:
+                self.hit("stmt:skip"); out.append("SKIP;")
+        return out
+
+    def ext_schema_src(self):
+        r = self.rng
+        L = [f"SCHEMA {self.name('xs')};"]
+        en = self.name("en"); vals = [self.name("v", 5) for _ in range(r.randint(1, 5))]
+        L.append(f"TYPE {en} = ENUMERATION OF ({', '.join(vals)}); END_TYPE;"); self.hit("type:enumeration")
+        root = self.name("root")
+        subs = [self.name("sub") for _ in range(r.randint(1, 5))]
+        sel = self.name("sl")
+        L.append(f"TYPE {sel} = SELECT ({', '.join(r.sample(subs, r.randint(1, len(subs))))}); END_TYPE;"); self.hit("type:select")
+        xa, ya = self.name("x", 8), self.name("y", 8)
+        head = f"ENTITY {root}"
+        if r.random() < 0.8:
+            head += (" ABSTRACT" if r.random() < 0.5 else "") + f" SUPERTYPE OF ({self.supertype_expr(subs)})"
+        L += [head + ";", f"  {xa} : INTEGER;", f"  {ya} : OPTIONAL STRING;", f"  e{en} : {en};"]
+        if r.random() < 0.8:
+            L.append("UNIQUE"); self.hit("entity:unique")
+            for _ in range(r.randint(1, 3)):
+                attrs = ", ".join(r.sample([xa, ya], r.randint(1, 2)))
+                L.append(f"  {self.name('ur', 4)} : {attrs};" if r.random() < 0.6 else f"  {attrs};")
+        L.append("END_ENTITY;")
+        owner = self.name("owner", 6)
+        for k, sname in enumerate(subs):
+            L.append(f"ENTITY {sname} SUBTYPE OF ({root});")
+            if k == 0:
+                L.append(f"  {owner} : {subs[-1]};")
+            if k == len(subs) - 1:
+                kind = r.choice([f"SET [0:?] OF {subs[0]}", f"BAG [1:2] OF {subs[0]}", subs[0]])
+                L += ["INVERSE", f"  {self.name('inv', 6)} : {kind} FOR {owner};"]; self.hit("entity:inverse")
+            if r.random() < 0.4:
+                w = src_text(render(("op", r.choice(REL), ("dot", ("grp", ("kw", "SELF"), root), xa), self.expr([], 2)), r))
+                L += ["WHERE", f"  {w};"]
+            L.append("END_ENTITY;")
+        pr = self.name("pr")
+        L += [f"PROCEDURE {pr}(VAR v1 : INTEGER; w1 : REAL);", "  v1 := v1 + 1;", "END_PROCEDURE;"]; self.hit("decl:procedure")
+        for _ in range(r.randint(1, 2)):
+            fn = self.name("fn")
+            ints = [self.name("p", 6), self.name("i", 6), self.name("k", 6)]
+            lst = self.name("q", 4)
+            L.append(f"FUNCTION {fn}({ints[0]} : INTEGER; {lst} : LIST OF INTEGER) : INTEGER;")
+            L += ["LOCAL", f"  {ints[1]} : INTEGER := {src_text(render(self.expr([ints[0]], 1, [lst]), r))};", f"  {ints[2]} : INTEGER;", "END_LOCAL;"]
+            L += ["  " + x for x in self.stmts(ints, [lst], 2, False, [pr])]
+            L += [f"  RETURN ({src_text(render(self.expr(ints, 2, [lst]), r))});", "END_FUNCTION;"]; self.hit("decl:function")
+        if r.random() < 0.7:
+            rn = self.name("rl"); n = self.name("n", 3)
+            pop = r.sample(subs, r.randint(1, min(2, len(subs))))
+            L += [f"RULE {rn} FOR ({', '.join(pop)});", f"LOCAL {n} : INTEGER; END_LOCAL;", f"  {n} := SIZEOF({pop[0]});", "WHERE"]
+            for _ in range(r.randint(1, 3)):
+                e = ("op", r.choice(REL), ("id", n), self.expr([n], 2))
+                L.append("  " + (self.name("wr", 5) + " : " if r.random() < 0.5 else "") + src_text(render(e, r)) + ";")
+            L.append("END_RULE;"); self.hit("decl:rule")
+        L.append("END_SCHEMA;")
+        return "\n".join(L) + "\n"
